@@ -267,15 +267,20 @@ func runExpiryImpl(t *testing.T, sc Scenario) *core.Result {
 			}
 			var rtpSock, rtcpSock net.PacketConn
 			if e.Transport == "udp" {
+				// (a legal pair that is not consecutive in half of the runs: client_port=36000-36011)
+				rtcpPort := 36001
+				if core.HS(sc.Seed, "c02.rtcpport", "", 0)%2 == 0 {
+					rtcpPort = 36011
+				}
 				rtpSock, _ = cli.ListenPacket("udp", ":36000")
-				rtcpSock, _ = cli.ListenPacket("udp", ":36001")
+				rtcpSock, _ = cli.ListenPacket("udp", fmt.Sprintf(":%d", rtcpPort))
 				defer rtpSock.Close()
 				defer rtcpSock.Close()
 			}
 			trh := headers.Transport{Delivery: ptrOf(headers.TransportDeliveryUnicast)}
 			if e.Transport == "udp" {
 				trh.Protocol = headers.TransportProtocolUDP
-				trh.ClientPorts = &[2]int{36000, 36001}
+				trh.ClientPorts = &[2]int{36000, rtcpSock.LocalAddr().(*net.UDPAddr).Port}
 			} else {
 				trh.Protocol = headers.TransportProtocolTCP
 				trh.InterleavedIDs = &[2]int{0, 1}
